@@ -75,12 +75,12 @@ class DeleteEdge(BasicAction):
         if not self.tracks.graph.has_edge(*self.edge):
             raise ValueError(f"Edge {self.edge} not in the graph, and cannot be removed")
 
-        # Save all edge feature values from the features dict
-        self.attributes = {}
-        for key in self.tracks.features.edge_features:
-            val = tracks.get_edge_attr(edge, key)
-            if val is not None:
-                self.attributes[key] = val
+        # Save every attribute the edge carries, not only the registered features
+        self.attributes = {
+            key: val
+            for key, val in self.tracks.graph.edges[self.edge].items()
+            if val is not None
+        }
 
         self._apply()
 
